@@ -252,10 +252,22 @@ func (h *Hist) govVestShock() string {
 }
 
 // govLpShock: governance re-submits a leverage-enabled pool with another leverage cap (the handler refuses a pool that exists already),
-// or removes one (refused while leveraged shares are recorded for it). Neither may touch what is recorded for the open positions.
+// or removes one (refused while leveraged shares are recorded for it), or re-sends the module's parameters with another module-wide
+// leverage cap. None of them may touch what is recorded for the open positions.
 func (h *Hist) govLpShock() string {
 	p := h.pool(func(q PoolRef) bool { return q.Oracle })
 	if p.Id == 0 {
+		return ""
+	}
+	if h.r.Intn(3) == 0 {
+		// the module-wide parameters re-sent with another leverage cap (below or above the pools' own caps), everything else as it stands
+		var mp lptypes.Params
+		h.w.Seed(func(ctx sdk.Context) { mp = h.w.App.LeveragelpKeeper.GetParams(ctx) })
+		lev := []string{"2", "3", "5", "10", "20"}[h.r.Intn(5)]
+		mp.LeverageMax = D(lev)
+		if h.govApplyRecorded(&lptypes.MsgUpdateParams{Authority: h.w.Gov, Params: &mp}) {
+			return "leveragelp.LeverageMax=" + lev
+		}
 		return ""
 	}
 	if h.r.Intn(3) == 0 {
